@@ -49,6 +49,9 @@ type Entry struct {
 	// receives "{{.ITEM.K1}}-{{.ITEM.K2}}" as its item text.
 	Matrix    []MatrixRow
 	MatrixRef bool // render the first row as ref: to a task variable
+	// MatrixRefX: the referenced list is built from the call variable X ('{{.X}}<value>'), so two calls of
+	// the task with different X must loop over different items
+	MatrixRefX bool
 }
 
 type MatrixRow struct {
@@ -119,6 +122,27 @@ func (p *Prog) CallName(from int, r *Ref) string {
 	return ":" + p.nsOf(t.File, r.ID%2 == 1) + ":" + t.Name
 }
 
+// RootVars are the variables the harness passes with a root call.
+func (p *Prog) RootVars(r *Ref) map[string]string {
+	t := p.Tasks[r.Target]
+	vars := map[string]string{}
+	if t.Run != WhenChanged {
+		vars["P"] = fmt.Sprintf(">r%d", r.ID)
+	}
+	if r.X != "" {
+		if t.Run == WhenChanged && t.XVia == "env" && strings.Contains(r.X, ",") {
+			xy := strings.SplitN(r.X, ",", 2)
+			vars["X"], vars["Y"] = xy[0], xy[1]
+		} else {
+			vars["X"] = r.X
+		}
+	}
+	if rq := t.RQ(); rq != "" {
+		vars["RQ"] = rq
+	}
+	return vars
+}
+
 // RootName is the CLI name of a root reference.
 func (p *Prog) RootName(r *Ref) string { return p.CallName(0, r) }
 
@@ -150,7 +174,13 @@ func (p *Prog) refVars(from *Task, r *Ref, item string) string {
 		if item != "" {
 			x = strings.ReplaceAll(x, "%ITEM%", item)
 		}
-		kv = append(kv, "X: "+yq(x))
+		if t.Run == WhenChanged && t.XVia == "env" && strings.Contains(x, ",") {
+			// two variables that reach the callee only through its env: the identity is the pair
+			xy := strings.SplitN(x, ",", 2)
+			kv = append(kv, "X: "+yq(xy[0]), "Y: "+yq(xy[1]))
+		} else {
+			kv = append(kv, "X: "+yq(x))
+		}
 	}
 	if rq := t.RQ(); rq != "" {
 		kv = append(kv, "RQ: "+yq(rq))
@@ -232,13 +262,19 @@ func forClause(e *Entry) (string, string) {
 
 // Items returns the expanded loop items of an entry in documented order
 // (list order; matrix: row-major, first key slowest), or [""] if not looped.
-func (e *Entry) Items() []string {
+func (e *Entry) Items() []string { return e.ItemsFor("") }
+
+// ItemsFor is Items for an instance called with the given X.
+func (e *Entry) ItemsFor(x string) []string {
 	if e.Matrix != nil {
 		items := []string{""}
-		for _, r := range e.Matrix {
+		for ri, r := range e.Matrix {
 			var next []string
 			for _, pre := range items {
 				for _, v := range r.Values {
+					if ri == 0 && e.MatrixRef && e.MatrixRefX {
+						v = x + v
+					}
 					if pre == "" {
 						next = append(next, v)
 					} else {
@@ -269,8 +305,8 @@ func probeLine(kind, cid, item string, t *Task) string {
 	}
 	pv := "{{.P}}"
 	if t.Run == WhenChanged && t.XVia == "env" {
-		pv = "{{.P}}[$XE]"
-		x = "$XE"
+		pv = "{{.P}}[$XE$YE]"
+		x = "$XE$YE"
 	}
 	return fmt.Sprintf(`printf '%s %s %%s x=%%s\n' "%s" "%s"`, kind, cid, pv, x)
 }
@@ -351,6 +387,9 @@ func (p *Prog) renderTask(b *strings.Builder, t *Task) {
 			if e.MatrixRef {
 				var vs []string
 				for _, v := range e.Matrix[0].Values {
+					if e.MatrixRefX {
+						v = "{{.X}}" + v
+					}
 					vs = append(vs, yq(v))
 				}
 				vars = append(vars, "MROW: ["+strings.Join(vs, ", ")+"]")
@@ -389,7 +428,7 @@ func (p *Prog) renderTask(b *strings.Builder, t *Task) {
 		}
 	}
 	if t.Run == WhenChanged && t.XVia == "env" {
-		b.WriteString("    env:\n      XE: '{{.X}}'\n")
+		b.WriteString("    env:\n      XE: '{{.X}}'\n      YE: '{{if .Y}},{{.Y}}{{end}}'\n")
 	}
 	if len(t.Deps) > 0 {
 		b.WriteString("    deps:\n")
